@@ -26,7 +26,7 @@ ASSUMPTIONS = ['segment.length() is the arc length (C06\'s subject); the oracle 
 TIERS = {
     'quick': {'shards': 14, 'random': 9000, 'timeout': 600, 'min_cases': 6000,
               'require_branches': ['T:nextafter(1,0)', 'T:boundary', 'T:boundary+-ulp', 'path:zero-length-segment',
-                                   'path:ratio>=1e9', 'topo:several-subpaths']},
+                                   'path:ratio>=1e9', 'topo:several-subpaths', 'path:near-miss-joints']},
     'thorough': {'shards': 14, 'random': 400000, 'timeout': 3000, 'min_cases': 200000,
                  'require_branches': ['T:nextafter(1,0)', 'T:boundary', 'T:boundary+-ulp', 'path:zero-length-segment',
                                       'path:ratio>=1e9', 'topo:several-subpaths']},
@@ -331,6 +331,21 @@ def cases(ctx):
                 kinds = [rng.choice('LQCA') for _ in range(rng.randint(1, 3))]
                 specs += gen.rand_path_specs(rng, kinds, cc, rng.choice(['open', 'curve']) if len(kinds) > 1 else 'open')
             cls.append('several-subpaths')
+            if rng.random() < 0.5:
+                # near-miss joints: a continuous path in which some joints are off by 1 ulp ... 1e-6 of the coordinates
+                kinds = [rng.choice('LQC') for _ in range(rng.randint(3, 7))]
+                specs = gen.rand_path_specs(rng, kinds, rng.choice(['rand', 'half']), rng.choice(['open', 'line']))
+                for j in range(1, len(specs)):
+                    if rng.random() < 0.5:
+                        z = complex(*specs[j][1])
+                        mode = rng.random()
+                        if mode < 0.4:
+                            z2 = complex(float(np.nextafter(z.real, z.real + 1)), z.imag)
+                        else:
+                            z2 = z + (abs(z) + 1) * 10.0 ** rng.uniform(-12, -6) * complex(rng.uniform(-1, 1), rng.uniform(-1, 1))
+                        if z2 != z:
+                            specs[j][1] = [z2.real, z2.imag]
+                cls.append('near-miss-joints')
         if any(s[0] == 'A' and s[1] == s[-1] for s in specs):
             continue
         if specs[0][0] == 'L' and specs[0][1] == specs[0][2]:
@@ -347,6 +362,8 @@ def run_case(ctx, case):
             ctx.branch('path:zero-length-segment')
         if c == 'ratio>=1e9':
             ctx.branch('path:ratio>=1e9')
+        if c == 'near-miss-joints':
+            ctx.branch('path:near-miss-joints')
     m = _model(p)
     if m is None:
         raise core.Skip('path of zero or non-finite length')
@@ -370,6 +387,22 @@ def run_case(ctx, case):
             k, t = p.T2t(T)
         except Exception:
             continue
+        # the statement's first sentence: point(T) IS the point of segment k at t for (k, t) = T2t(T)
+        try:
+            zT = complex(p.point(T))
+        except Exception:
+            zT = None
+        if zT is not None and 0 <= k < len(p):
+            with monitor.suspended():
+                zk = complex(p[k].point(t))
+            ctx.verdict()
+            tolc = 64 * EPS * m['mag'] + 32 * EPS / max(m['fr'][k], 1e-300) * m['ctrl'][k] + \
+                (1e-9 * max(p[k].radius.real, p[k].radius.imag) if type(p[k]).__name__ == 'Arc' else 0.0)
+            if m['fr'][k] > 0 and not (abs(zT - zk) <= tolc):
+                gap = 'across-a-gap' if any(abs(T - c) <= 8 * EPS for c in m['cum'][1:-1]) else 'interior'
+                ctx.violation('incoherent/point-vs-T2t/' + gap,
+                              'point(T) is not segment k at parameter t for (k, t) = T2t(T)',
+                              {'T': T, 'k': k, 't': t, 'point(T)': repr(zT), 'seg.point(t)': repr(zk)})
         # inverse relation
         if m['fr'][k] > 0:
             Tb = p.t2T(k, t)
